@@ -1539,7 +1539,10 @@ def _boundary_predicate(repo: Repo, f: FuncInfo, hay: str = "", needle: str = ""
                     if isinstance(c, (ast.Tuple, ast.List, ast.Set)) and len(c.elts) == 2 and sorted(x.value for x in c.elts if isinstance(x, ast.Constant)) == ["", "."]:
                         dot.append(mk(a))
             boundary = f_or([*empty_t, *[f_not(x) for x in empty_f], *dot])
-            if not (dot and implies(s, f_or([f_not(mk(a_raw)), boundary]))):
+            try:
+                if not (dot and implies(s, f_or([f_not(mk(a_raw)), boundary]))):
+                    ok = False
+            except AnalysisError:
                 ok = False
     _cache[key] = ok
     return ok
@@ -2138,250 +2141,266 @@ def _scan(repo: Repo) -> list[Site]:
     for f in repo.all_functions():
         reviewed = REVIEWED_PATTERN_SITES.get((f.module.name, f.qualname))
         for n in own_nodes(f.node):
-            # ---- method-style operations
-            if isinstance(n, ast.Call) and isinstance(n.func, ast.Attribute) and (n.func.attr in STR_REL_METHODS or n.func.attr in ("split", "rsplit")) and n.args:
-                hay, needle, op = n.func.value, n.args[0], n.func.attr
-                s = _is_str(T, f, hay)
-                if s is False:
+            try:
+                # ---- case folding of a name that is then compared: distinct names become one
+                if isinstance(n, ast.Call) and isinstance(n.func, ast.Attribute) and n.func.attr in ("lower", "upper", "casefold", "swapcase", "title", "capitalize") and not n.args and "NAME" in tagged(n.func.value) and _is_str(T, f, n.func.value) is not False:
+                    p_ = parent(n)
+                    used_in_test = isinstance(p_, ast.Compare) or (isinstance(p_, ast.Attribute) and p_.attr in STR_REL_METHODS) or (isinstance(p_, ast.Call) and isinstance(p_.func, ast.Attribute) and p_.func.attr in STR_REL_METHODS and n in p_.args)
+                    if used_in_test:
+                        sites.append(Site(f, n, "casefold", n.func.value, None, True, "unsafe", f"`{norm(p_, 80)}`: a module name is case-folded before it is compared - names that differ only in case are identified (not invariant under injective renaming)"))
                     continue
-                if s is None and op in ("count", "index"):
-                    continue  # list.count / list.index on a value of unknown static type
-                tags = tagged(hay)
-                is_name = "NAME" in tags
-                if not is_name:
-                    if op not in ("split", "rsplit"):
-                        sites.append(Site(f, n, op, hay, needle, False, "not-name" if s else "unclassified", f"haystack `{norm(hay, 40)}` is not derived from a module name" if s else "provenance of the haystack unknown"))
-                    continue
-                const = _const_str(needle)
-                if const is None and isinstance(needle, (ast.Name, ast.Attribute, ast.JoinedStr, ast.BinOp)) and "NAME" not in tagged(needle):
-                    const = fold(repo, f.module, needle, f)  # a module-level / local constant
-                    if const is None and isinstance(needle, ast.Attribute):
-                        const = _attr_constant(repo, T, f, needle)
-                group = "relation"
-                if op in ("startswith", "removeprefix"):
-                    if const is not None and not const.endswith("."):
-                        sites.append(Site(f, n, op, hay, needle, True, "not-name", f"constant prefix {const!r}: a lexical test, not a relation between two module names"))
+                # ---- method-style operations
+                if isinstance(n, ast.Call) and isinstance(n.func, ast.Attribute) and (n.func.attr in STR_REL_METHODS or n.func.attr in ("split", "rsplit")) and n.args:
+                    hay, needle, op = n.func.value, n.args[0], n.func.attr
+                    if isinstance(hay, ast.Name) and hay.id == "str" and len(n.args) >= 2 and not _is_local(f, "str"):
+                        hay, needle = n.args[0], n.args[1]  # unbound method: str.startswith(name, prefix)
+                    s = _is_str(T, f, hay)
+                    if s is False:
                         continue
-                    parts = needle.elts if isinstance(needle, ast.Tuple) else [needle]
-                    sts = {needle_status(repo, f, p) for p in parts}
-                    st = sts.pop() if len(sts) == 1 else ("bare" if "bare" in sts else "unknown")
-                    safe = st == "dot" or _boundary_companion(f, n, hay, needle)
-                    why = "prefix ends in '.' (whole dotted components)" if safe else f"`{norm(n, 80)}`: raw string prefix test on a module name - 'pkg.ab' counts as part of 'pkg.a'"
-                    if not safe and _boundary_predicate(repo, f, norm(hay), norm(needle)):
-                        safe, why = True, "raw prefix test inside a predicate that also requires the next character to be '.' or absent"
-                        boundary_funcs.add(f.fq)
-                    if not safe and op == "removeprefix" and st == "bare" and len(parts) == 1:
-                        v, w = _slice_by_len(repo, f, n, needle, boundary_funcs, hay_e=hay)
-                        if v == "safe":
-                            safe, why = True, w
-                    if not safe and st == "unknown":
-                        sites.append(Site(f, n, op, hay, needle, True, "unknown", f"`{norm(n, 80)}`: cannot establish whether the prefix `{norm(needle, 40)}` ends with the separator '.'"))
+                    if s is None and op in ("count", "index"):
+                        continue  # list.count / list.index on a value of unknown static type
+                    tags = tagged(hay)
+                    is_name = "NAME" in tags
+                    if not is_name:
+                        if op not in ("split", "rsplit"):
+                            sites.append(Site(f, n, op, hay, needle, False, "not-name" if s else "unclassified", f"haystack `{norm(hay, 40)}` is not derived from a module name" if s else "provenance of the haystack unknown"))
                         continue
-                elif op in ("lstrip", "rstrip", "strip"):
-                    if const is not None or "NAME" not in tagged(needle):
-                        continue  # stripping constant characters (a trailing '.') is not a relation between names
-                    safe, why = False, f"`{norm(n, 80)}`: str.{op} removes *characters* of the other name from the end(s), not a prefix or suffix of whole components"
-                elif op in ("endswith", "removesuffix"):
-                    if const is not None and not const.startswith("."):
-                        sites.append(Site(f, n, op, hay, needle, True, "not-name", f"constant suffix {const!r}: a lexical test, not a relation between two module names"))
-                        continue
-                    safe = _starts_with_dot(_expand(repo, f, needle))
-                    why = "suffix starts at a '.' boundary" if safe else f"`{norm(n, 80)}`: raw string suffix test on a module name"
-                elif op in ("count", "find", "index", "rfind", "rindex", "partition", "rpartition", "split", "rsplit"):
-                    safe = const == "."
-                    if const is not None:
-                        group = "separator"
-                        why = "only the separator '.' is searched" if safe else f"`{norm(n, 80)}`: a module name is cut / searched at {const!r}, not at the separator '.'"
-                    else:
-                        why = f"`{norm(n, 80)}`: substring search inside a module name ignores component boundaries"
-                else:  # replace
-                    ntags = tagged(needle)
-                    if const is None and "NAME" not in ntags:
-                        sites.append(Site(f, n, op, hay, needle, True, "not-name", "replaces a non-name string"))
-                        continue
-                    safe = const is not None and "NAME" not in ntags
-                    repl = _const_str(n.args[1]) if len(n.args) > 1 else None
-                    if safe and const != "." and repl is not None and "." in repl:
-                        sites.append(Site(f, n, op, hay, needle, True, "unsafe", f"`{norm(n, 80)}`: {const!r} inside a module name is turned into the separator - different names become one", "separator"))
-                        continue
-                    why = "replaces a constant" if safe else f"`{norm(n, 80)}`: str.replace substitutes every occurrence of one module name inside another, not a leading run of whole components"
-                sites.append(Site(f, n, op, hay, needle, True, "safe" if safe else "unsafe", why, group))
-            # ---- joining components
-            elif isinstance(n, ast.Call) and isinstance(n.func, ast.Attribute) and n.func.attr == "join" and len(n.args) == 1 and _const_str(n.func.value) is not None:
-                arg = n.args[0]
-                comp = arg if isinstance(arg, (ast.GeneratorExp, ast.ListComp)) else None
-                elt = comp.elt if comp is not None else None
-                if comp is None:
-                    if "PARTS" not in tagged(arg):
-                        continue
-                elif "COMP" not in tagged(elt):
-                    continue
-                sep = _const_str(n.func.value)
-                decorated = elt is not None and (_starts_with_dot(elt) or dot_status(repo, f, elt) == "dot")
-                if comp is not None and not isinstance(elt, ast.Name) and not decorated:
-                    continue  # text built from components (a message), not a name
-                if sep == "." and not decorated:
-                    verdict, why = "safe", "components are joined with the separator '.'"
-                elif sep == "" and decorated:
-                    verdict, why = "safe", "every joined component carries its separator '.'"
-                else:
-                    verdict, why = "unsafe", f"`{norm(n, 80)}`: the components of a module name are joined with {sep!r}, not with the separator '.'"
-                sites.append(Site(f, n, "join", n.args[0], n.func.value, True, verdict, why, "separator"))
-            # ---- a bound str method handed to map / filter / any: `any(map(name.startswith, prefixes))`
-            elif isinstance(n, ast.Call) and isinstance(n.func, ast.Name) and n.func.id in ("map", "filter") and len(n.args) == 2 and isinstance(n.args[0], ast.Attribute) and n.args[0].attr in ("startswith", "endswith", "find", "__contains__"):
-                hay = n.args[0].value
-                if _is_str(T, f, hay) is False or "NAME" not in tagged(hay):
-                    continue
-                needle = ast.Starred(value=n.args[1], ctx=ast.Load())
-                st = dot_status(repo, f, needle)
-                if st == "unknown":
-                    tg = tagged(n.args[1])
-                    st = "bare" if "DOT" not in tg and "NAME" in tg else "unknown"
-                op = n.args[0].attr
-                if op == "startswith" and st == "dot":
-                    sites.append(Site(f, n, op, hay, n.args[1], True, "safe", "every prefix ends in '.' (whole dotted components)"))
-                elif op == "startswith" and st == "unknown":
-                    sites.append(Site(f, n, op, hay, n.args[1], True, "unknown", f"`{norm(n, 80)}`: cannot establish whether the prefixes end with the separator '.'"))
-                else:
-                    sites.append(Site(f, n, op, hay, n.args[1], True, "unsafe", f"`{norm(n, 80)}`: raw string {op} test on a module name, applied through the bound method"))
-            # ---- library functions that compare names character by character
-            elif isinstance(n, ast.Call) and (repo.resolve_name(f.module, n.func) or "") in ("os.path.commonprefix", "posixpath.commonprefix", "fnmatch.fnmatch", "fnmatch.fnmatchcase", "fnmatch.filter") and n.args:
-                fq = repo.resolve_name(f.module, n.func)
-                if fq.endswith("commonprefix"):
-                    if "NAME" in tagged(n.args[0]):
-                        sites.append(Site(f, n, "commonprefix", n.args[0], None, True, "unsafe", f"`{norm(n, 80)}`: commonprefix compares character by character - the common prefix of 'pkg.ab' and 'pkg.a' is 'pkg.a'"))
-                elif len(n.args) >= 2:
-                    pat = _expand(repo, f, n.args[1])
-                    if "NAME" in tagged(n.args[1]) and "NAME" in tagged(n.args[0]):
-                        tail = pat.values[-1] if isinstance(pat, ast.JoinedStr) and pat.values else (pat.right if isinstance(pat, ast.BinOp) and isinstance(pat.op, ast.Add) else None)
-                        ok = (_const_str(tail) or "").startswith(".") if tail is not None else False
-                        sites.append(Site(f, n, "fnmatch", n.args[0], n.args[1], True, "safe" if ok else "unsafe", "glob pattern continues with the separator after the name" if ok else f"`{norm(n, 80)}`: a glob pattern is built from a module name without a component boundary (and its metacharacters are not escaped)"))
-            # ---- comparison of two names through zip: character by character, or component-wise
-            elif isinstance(n, ast.Call) and isinstance(n.func, ast.Name) and n.func.id == "zip" and len(n.args) == 2 and _zip_in_all(n):
-                if all("NAME" in tagged(a) and "PARTS" not in tagged(a) and _is_str(T, f, a) is True for a in n.args):
-                    sites.append(Site(f, n, "zip-characters", n.args[0], n.args[1], True, "unsafe", f"`{norm(n, 80)}`: two module names are compared character by character up to the length of the shorter one - a raw string prefix test"))
-                    continue
-                if not all("PARTS" in tagged(a) for a in n.args):
-                    continue
-                strict = any(k.arg == "strict" and isinstance(k.value, ast.Constant) and k.value.value is True for k in n.keywords)
-                texts = set()
-                for a in n.args:
-                    texts.add(norm(a))
-                    d = _expand(repo, f, a)
-                    texts.add(norm(d))
-                lens = False
-                for c in own_nodes(f.node):
-                    if isinstance(c, ast.Compare) and len(c.ops) == 1:
-                        sides = [c.left, c.comparators[0]]
-                        got = [any(isinstance(x, ast.Call) and _call_name(x) == "len" and x.args and norm(x.args[0]) in texts for x in ast.walk(sd)) for sd in sides]
-                        if all(got):
-                            lens = True
-                if strict or lens:
-                    verdict, why = "safe", "component lists compared element-wise, their lengths separately"
-                else:
-                    verdict, why = "unsafe", f"`{norm(n, 80)}`: zip stops at the shorter component list - a proper ancestor ('pkg' for the prefix 'pkg.core') compares equal, the prefix relation holds in both directions"
-                sites.append(Site(f, n, "zip-components", n.args[0], n.args[1], True, verdict, why, "extent"))
-            # ---- substring containment
-            elif isinstance(n, ast.Compare) and len(n.ops) == 1 and isinstance(n.ops[0], (ast.In, ast.NotIn)):
-                needle, hay = n.left, n.comparators[0]
-                s = _is_str(T, f, hay)
-                if s is False or isinstance(hay, ast.Constant):
-                    continue  # (membership of a character in a constant set of characters: see char-compare)
-                tags = tagged(hay)
-                if s is None:
-                    continue  # a NAME-tagged value of unknown static type may be a collection of names
-                if "NAME" in tags or "NAME" in tagged(needle):
-                    if isinstance(needle, ast.Constant) and isinstance(needle.value, str):
-                        ok = needle.value == "."
-                        sites.append(Site(f, n, "in", hay, needle, True, "safe" if ok else "not-name", "tests for the separator only" if ok else f"constant {needle.value!r} searched in a name: a lexical test, not a relation between two module names", "separator" if ok else "relation"))
-                    elif "NAME" not in tags and _is_str(T, f, needle) is not True:
-                        continue
-                    elif all(_starts_with_dot(x) and dot_status(repo, f, x) == "dot" for x in (_expand(repo, f, needle), _expand(repo, f, hay))):
-                        sites.append(Site(f, n, "in", hay, needle, True, "safe", "both strings are enclosed in separators: a run of whole components is searched"))
-                    else:
-                        sites.append(Site(f, n, "in", hay, needle, True, "unsafe", f"`{norm(n, 80)}`: substring test between strings where a module name is involved ('pkg.a' in 'pkg.ab.c' is true)"))
-                else:
-                    sites.append(Site(f, n, "in", hay, needle, False, "not-name", "substring test on a non-name string"))
-            # ---- regexes built from values
-            elif isinstance(n, ast.Call) and (repo.resolve_name(f.module, n.func) or "").startswith("re.") and n.args:
-                fq = repo.resolve_name(f.module, n.func)
-                if fq in ("re.escape",):
-                    continue
-                pat = n.args[0]
-                ptags = tagged(pat)
-                if isinstance(pat, ast.Constant):
-                    continue
-                if "NAME" in ptags and _user_regex(repo, f, pat):
-                    sites.append(Site(f, n, fq, n.args[1] if len(n.args) > 1 else None, pat, True, "reviewed", "the pattern is the identifier of a regex filter (ModuleNameRegexFilter): a user-supplied regex matched against names by design"))
-                    continue
-                if reviewed:
-                    sites.append(Site(f, n, fq, n.args[1] if len(n.args) > 1 else None, pat, True, "reviewed", reviewed))
-                    continue
-                if "NAME" in ptags:
-                    sites.append(Site(f, n, fq, n.args[-1], pat, True, "unsafe", f"`{norm(n, 80)}`: a regular expression is built from an un-escaped module name ('.' matches any character; no component boundary)"))
-                elif "ESC:NAME" in ptags:
-                    text = norm(_expand(repo, f, pat))
-                    safe = "(\\.|$)" in text or "(\\\\.|$)" in text or "\\." in text or "\\b" in text or fq == "re.fullmatch"
-                    sites.append(Site(f, n, fq, n.args[-1], pat, True, "safe" if safe else "unsafe", "escaped name followed by a component boundary" if safe else f"`{norm(n, 80)}`: escaped module name without a trailing component boundary"))
-                elif ptags & {"REGEX"}:
-                    sites.append(Site(f, n, fq, n.args[-1], pat, False, "reviewed", "user-supplied regex"))
-                else:
-                    # pattern built from constants / non-name values
-                    sites.append(Site(f, n, fq, n.args[-1] if len(n.args) > 1 else None, pat, False, "not-name", "pattern is not derived from a module name"))
-            # ---- slicing a name
-            elif isinstance(n, ast.Subscript) and isinstance(n.slice, ast.Slice) and isinstance(n.ctx, ast.Load) and "NAME" in tagged(n.value):
-                s = _is_str(T, f, n.value)
-                if s is False:
-                    continue
-                bounds = [(n.slice.lower, False), (n.slice.upper, True)]
-                as_test = _slice_as_prefix_test(repo, f, n)
-                if as_test is not None:
-                    sites.append(Site(f, n, "slice-compare", n.value, parent(n), True, as_test[0], as_test[1]))
-                    continue
-                hay_t = norm(n.value)
-                by_len = next((c for b, _u in bounds for c in [_len_bound(repo, f, b, hay_t)] if c is not None), None)
-                if by_len is not None:
-                    other_e = by_len.args[0]
-                    if _is_str(T, f, other_e) is False:
-                        continue  # length of a component list, not of a string
-                    verdict, why = _slice_by_len(repo, f, n, other_e, boundary_funcs)
-                    sites.append(Site(f, n, "slice-by-len", n.value, by_len, True, verdict, why))
-                    continue
-                if s is not True or "PARTS" in tagged(n.value):
-                    continue
-                for b, is_upper in bounds:
-                    if b is None or _len_calls(repo, f, b):
-                        continue  # (a bound relative to the own length: a cut counted from the end, see the other bound)
-                    try:
-                        ast.literal_eval(b)
-                        continue  # constant bound
-                    except Exception:  # noqa: BLE001
-                        pass
-                    verdict, why = _index_cut(repo, f, n, b, is_upper)
-                    sites.append(Site(f, n, "slice-by-index", n.value, b, True, verdict, why))
-                    break
-            # ---- characters of a name compared with constants
-            elif isinstance(n, (ast.For, ast.AsyncFor, ast.comprehension)):
-                it = n.iter
-                if isinstance(it, ast.Call) and _call_name(it) == "enumerate" and it.args:
-                    tgt = n.target.elts[1] if isinstance(n.target, ast.Tuple) and len(n.target.elts) == 2 else None
-                    it = it.args[0]
-                else:
-                    tgt = n.target
-                if not isinstance(tgt, ast.Name) or "NAME" not in tagged(it) or _is_str(T, f, it) is not True:
-                    continue
-                if isinstance(n, (ast.For, ast.AsyncFor)):
-                    sites.extend(_char_prefix_sites(repo, f, n, tgt.id, it))
-                for c in own_nodes(f.node):
-                    if isinstance(c, ast.Compare) and len(c.ops) == 1 and any(isinstance(x, ast.Name) and x.id == tgt.id for x in (c.left, c.comparators[0])):
-                        other = c.comparators[0] if isinstance(c.left, ast.Name) and c.left.id == tgt.id else c.left
-                        k = _const_str(other)
-                        if k is None and isinstance(other, (ast.Tuple, ast.List, ast.Set)) and all(_const_str(x) is not None for x in other.elts):
-                            k = "".join(sorted({_const_str(x) for x in other.elts}))
-                        if k is None:
+                    const = _const_str(needle)
+                    if const is None and isinstance(needle, (ast.Name, ast.Attribute, ast.JoinedStr, ast.BinOp)) and "NAME" not in tagged(needle):
+                        const = fold(repo, f.module, needle, f)  # a module-level / local constant
+                        if const is None and isinstance(needle, ast.Attribute):
+                            const = _attr_constant(repo, T, f, needle)
+                    group = "relation"
+                    if op in ("startswith", "removeprefix"):
+                        if const is not None and not const.endswith("."):
+                            sites.append(Site(f, n, op, hay, needle, True, "not-name", f"constant prefix {const!r}: a lexical test, not a relation between two module names"))
                             continue
-                        ok = k == "."
-                        sites.append(Site(f, c, "char-compare", it, other, True, "safe" if ok else "unsafe", "characters of the name are compared with the separator '.' only" if ok else f"`{norm(c, 60)}`: characters of a module name are compared with {k!r} - names are cut at other characters than '.'", "separator"))
+                        parts = needle.elts if isinstance(needle, ast.Tuple) else [needle]
+                        sts = {needle_status(repo, f, p) for p in parts}
+                        st = sts.pop() if len(sts) == 1 else ("bare" if "bare" in sts else "unknown")
+                        safe = st == "dot" or _boundary_companion(f, n, hay, needle)
+                        why = "prefix ends in '.' (whole dotted components)" if safe else f"`{norm(n, 80)}`: raw string prefix test on a module name - 'pkg.ab' counts as part of 'pkg.a'"
+                        if not safe and _boundary_predicate(repo, f, norm(hay), norm(needle)):
+                            safe, why = True, "raw prefix test inside a predicate that also requires the next character to be '.' or absent"
+                            boundary_funcs.add(f.fq)
+                        if not safe and op == "removeprefix" and st == "bare" and len(parts) == 1:
+                            v, w = _slice_by_len(repo, f, n, needle, boundary_funcs, hay_e=hay)
+                            if v == "safe":
+                                safe, why = True, w
+                        if not safe and st == "unknown":
+                            sites.append(Site(f, n, op, hay, needle, True, "unknown", f"`{norm(n, 80)}`: cannot establish whether the prefix `{norm(needle, 40)}` ends with the separator '.'"))
+                            continue
+                    elif op in ("lstrip", "rstrip", "strip"):
+                        if const is not None or "NAME" not in tagged(needle):
+                            continue  # stripping constant characters (a trailing '.') is not a relation between names
+                        safe, why = False, f"`{norm(n, 80)}`: str.{op} removes *characters* of the other name from the end(s), not a prefix or suffix of whole components"
+                    elif op in ("endswith", "removesuffix"):
+                        if const is not None and not const.startswith("."):
+                            sites.append(Site(f, n, op, hay, needle, True, "not-name", f"constant suffix {const!r}: a lexical test, not a relation between two module names"))
+                            continue
+                        safe = _starts_with_dot(_expand(repo, f, needle))
+                        why = "suffix starts at a '.' boundary" if safe else f"`{norm(n, 80)}`: raw string suffix test on a module name"
+                    elif op in ("count", "find", "index", "rfind", "rindex", "partition", "rpartition", "split", "rsplit"):
+                        safe = const == "."
+                        if const is not None:
+                            group = "separator"
+                            why = "only the separator '.' is searched" if safe else f"`{norm(n, 80)}`: a module name is cut / searched at {const!r}, not at the separator '.'"
+                        else:
+                            why = f"`{norm(n, 80)}`: substring search inside a module name ignores component boundaries"
+                    else:  # replace
+                        ntags = tagged(needle)
+                        if const is None and "NAME" not in ntags:
+                            sites.append(Site(f, n, op, hay, needle, True, "not-name", "replaces a non-name string"))
+                            continue
+                        safe = const is not None and "NAME" not in ntags
+                        repl = _const_str(n.args[1]) if len(n.args) > 1 else None
+                        if safe and const != "." and repl is not None and "." in repl:
+                            sites.append(Site(f, n, op, hay, needle, True, "unsafe", f"`{norm(n, 80)}`: {const!r} inside a module name is turned into the separator - different names become one", "separator"))
+                            continue
+                        why = "replaces a constant" if safe else f"`{norm(n, 80)}`: str.replace substitutes every occurrence of one module name inside another, not a leading run of whole components"
+                    sites.append(Site(f, n, op, hay, needle, True, "safe" if safe else "unsafe", why, group))
+                # ---- joining components
+                elif isinstance(n, ast.Call) and isinstance(n.func, ast.Attribute) and n.func.attr == "join" and len(n.args) == 1 and _const_str(n.func.value) is not None:
+                    arg = n.args[0]
+                    comp = arg if isinstance(arg, (ast.GeneratorExp, ast.ListComp)) else None
+                    elt = comp.elt if comp is not None else None
+                    if comp is None:
+                        if "PARTS" not in tagged(arg):
+                            continue
+                    elif "COMP" not in tagged(elt):
+                        continue
+                    sep = _const_str(n.func.value)
+                    decorated = elt is not None and (_starts_with_dot(elt) or dot_status(repo, f, elt) == "dot")
+                    if comp is not None and not isinstance(elt, ast.Name) and not decorated:
+                        continue  # text built from components (a message), not a name
+                    if sep == "." and not decorated:
+                        verdict, why = "safe", "components are joined with the separator '.'"
+                    elif sep == "" and decorated:
+                        verdict, why = "safe", "every joined component carries its separator '.'"
+                    else:
+                        verdict, why = "unsafe", f"`{norm(n, 80)}`: the components of a module name are joined with {sep!r}, not with the separator '.'"
+                    sites.append(Site(f, n, "join", n.args[0], n.func.value, True, verdict, why, "separator"))
+                # ---- a bound str method handed to map / filter / any: `any(map(name.startswith, prefixes))`
+                elif isinstance(n, ast.Call) and isinstance(n.func, ast.Name) and n.func.id in ("map", "filter") and len(n.args) == 2 and isinstance(n.args[0], ast.Attribute) and n.args[0].attr in ("startswith", "endswith", "find", "__contains__"):
+                    hay = n.args[0].value
+                    if _is_str(T, f, hay) is False or "NAME" not in tagged(hay):
+                        continue
+                    needle = ast.Starred(value=n.args[1], ctx=ast.Load())
+                    st = dot_status(repo, f, needle)
+                    if st == "unknown":
+                        tg = tagged(n.args[1])
+                        st = "bare" if "DOT" not in tg and "NAME" in tg else "unknown"
+                    op = n.args[0].attr
+                    if op == "startswith" and st == "dot":
+                        sites.append(Site(f, n, op, hay, n.args[1], True, "safe", "every prefix ends in '.' (whole dotted components)"))
+                    elif op == "startswith" and st == "unknown":
+                        sites.append(Site(f, n, op, hay, n.args[1], True, "unknown", f"`{norm(n, 80)}`: cannot establish whether the prefixes end with the separator '.'"))
+                    else:
+                        sites.append(Site(f, n, op, hay, n.args[1], True, "unsafe", f"`{norm(n, 80)}`: raw string {op} test on a module name, applied through the bound method"))
+                # ---- library functions that compare names character by character
+                elif isinstance(n, ast.Call) and (repo.resolve_name(f.module, n.func) or "") in ("os.path.commonprefix", "posixpath.commonprefix", "fnmatch.fnmatch", "fnmatch.fnmatchcase", "fnmatch.filter") and n.args:
+                    fq = repo.resolve_name(f.module, n.func)
+                    if fq.endswith("commonprefix"):
+                        if "NAME" in tagged(n.args[0]):
+                            sites.append(Site(f, n, "commonprefix", n.args[0], None, True, "unsafe", f"`{norm(n, 80)}`: commonprefix compares character by character - the common prefix of 'pkg.ab' and 'pkg.a' is 'pkg.a'"))
+                    elif len(n.args) >= 2:
+                        pat = _expand(repo, f, n.args[1])
+                        if "NAME" in tagged(n.args[1]) and "NAME" in tagged(n.args[0]):
+                            tail = pat.values[-1] if isinstance(pat, ast.JoinedStr) and pat.values else (pat.right if isinstance(pat, ast.BinOp) and isinstance(pat.op, ast.Add) else None)
+                            ok = (_const_str(tail) or "").startswith(".") if tail is not None else False
+                            sites.append(Site(f, n, "fnmatch", n.args[0], n.args[1], True, "safe" if ok else "unsafe", "glob pattern continues with the separator after the name" if ok else f"`{norm(n, 80)}`: a glob pattern is built from a module name without a component boundary (and its metacharacters are not escaped)"))
+                # ---- comparison of two names through zip: character by character, or component-wise
+                elif isinstance(n, ast.Call) and isinstance(n.func, ast.Name) and n.func.id == "zip" and len(n.args) == 2 and _zip_in_all(n):
+                    if all("NAME" in tagged(a) and "PARTS" not in tagged(a) and _is_str(T, f, a) is True for a in n.args):
+                        sites.append(Site(f, n, "zip-characters", n.args[0], n.args[1], True, "unsafe", f"`{norm(n, 80)}`: two module names are compared character by character up to the length of the shorter one - a raw string prefix test"))
+                        continue
+                    if not all("PARTS" in tagged(a) for a in n.args):
+                        continue
+                    strict = any(k.arg == "strict" and isinstance(k.value, ast.Constant) and k.value.value is True for k in n.keywords)
+                    texts = set()
+                    for a in n.args:
+                        texts.add(norm(a))
+                        d = _expand(repo, f, a)
+                        texts.add(norm(d))
+                    lens = False
+                    for c in own_nodes(f.node):
+                        if isinstance(c, ast.Compare) and len(c.ops) == 1:
+                            sides = [c.left, c.comparators[0]]
+                            got = [any(isinstance(x, ast.Call) and _call_name(x) == "len" and x.args and norm(x.args[0]) in texts for x in ast.walk(sd)) for sd in sides]
+                            if all(got):
+                                lens = True
+                    if strict or lens:
+                        verdict, why = "safe", "component lists compared element-wise, their lengths separately"
+                    else:
+                        verdict, why = "unsafe", f"`{norm(n, 80)}`: zip stops at the shorter component list - a proper ancestor ('pkg' for the prefix 'pkg.core') compares equal, the prefix relation holds in both directions"
+                    sites.append(Site(f, n, "zip-components", n.args[0], n.args[1], True, verdict, why, "extent"))
+                # ---- substring containment
+                elif isinstance(n, ast.Compare) and len(n.ops) == 1 and isinstance(n.ops[0], (ast.In, ast.NotIn)):
+                    needle, hay = n.left, n.comparators[0]
+                    s = _is_str(T, f, hay)
+                    if s is False or isinstance(hay, ast.Constant):
+                        continue  # (membership of a character in a constant set of characters: see char-compare)
+                    tags = tagged(hay)
+                    if s is None:
+                        continue  # a NAME-tagged value of unknown static type may be a collection of names
+                    if "NAME" in tags or "NAME" in tagged(needle):
+                        if isinstance(needle, ast.Constant) and isinstance(needle.value, str):
+                            ok = needle.value == "."
+                            sites.append(Site(f, n, "in", hay, needle, True, "safe" if ok else "not-name", "tests for the separator only" if ok else f"constant {needle.value!r} searched in a name: a lexical test, not a relation between two module names", "separator" if ok else "relation"))
+                        elif "NAME" not in tags and _is_str(T, f, needle) is not True:
+                            continue
+                        elif all(_starts_with_dot(x) and dot_status(repo, f, x) == "dot" for x in (_expand(repo, f, needle), _expand(repo, f, hay))):
+                            sites.append(Site(f, n, "in", hay, needle, True, "safe", "both strings are enclosed in separators: a run of whole components is searched"))
+                        else:
+                            sites.append(Site(f, n, "in", hay, needle, True, "unsafe", f"`{norm(n, 80)}`: substring test between strings where a module name is involved ('pkg.a' in 'pkg.ab.c' is true)"))
+                    else:
+                        sites.append(Site(f, n, "in", hay, needle, False, "not-name", "substring test on a non-name string"))
+                # ---- regexes built from values
+                elif isinstance(n, ast.Call) and (repo.resolve_name(f.module, n.func) or "").startswith("re.") and n.args:
+                    fq = repo.resolve_name(f.module, n.func)
+                    if fq in ("re.escape",):
+                        continue
+                    pat = n.args[0]
+                    ptags = tagged(pat)
+                    if isinstance(pat, ast.Constant):
+                        continue
+                    if "NAME" in ptags and _user_regex(repo, f, pat):
+                        sites.append(Site(f, n, fq, n.args[1] if len(n.args) > 1 else None, pat, True, "reviewed", "the pattern is the identifier of a regex filter (ModuleNameRegexFilter): a user-supplied regex matched against names by design"))
+                        continue
+                    if reviewed:
+                        sites.append(Site(f, n, fq, n.args[1] if len(n.args) > 1 else None, pat, True, "reviewed", reviewed))
+                        continue
+                    if "NAME" in ptags:
+                        sites.append(Site(f, n, fq, n.args[-1], pat, True, "unsafe", f"`{norm(n, 80)}`: a regular expression is built from an un-escaped module name ('.' matches any character; no component boundary)"))
+                    elif "ESC:NAME" in ptags:
+                        text = norm(_expand(repo, f, pat))
+                        safe = "(\\.|$)" in text or "(\\\\.|$)" in text or "\\." in text or "\\b" in text or fq == "re.fullmatch"
+                        sites.append(Site(f, n, fq, n.args[-1], pat, True, "safe" if safe else "unsafe", "escaped name followed by a component boundary" if safe else f"`{norm(n, 80)}`: escaped module name without a trailing component boundary"))
+                    elif ptags & {"REGEX"}:
+                        sites.append(Site(f, n, fq, n.args[-1], pat, False, "reviewed", "user-supplied regex"))
+                    else:
+                        # pattern built from constants / non-name values
+                        sites.append(Site(f, n, fq, n.args[-1] if len(n.args) > 1 else None, pat, False, "not-name", "pattern is not derived from a module name"))
+                # ---- slicing a name
+                elif isinstance(n, ast.Subscript) and isinstance(n.slice, ast.Slice) and isinstance(n.ctx, ast.Load) and "NAME" in tagged(n.value):
+                    s = _is_str(T, f, n.value)
+                    if s is False:
+                        continue
+                    bounds = [(n.slice.lower, False), (n.slice.upper, True)]
+                    as_test = _slice_as_prefix_test(repo, f, n)
+                    if as_test is not None:
+                        sites.append(Site(f, n, "slice-compare", n.value, parent(n), True, as_test[0], as_test[1]))
+                        continue
+                    hay_t = norm(n.value)
+                    by_len = next((c for b, _u in bounds for c in [_len_bound(repo, f, b, hay_t)] if c is not None), None)
+                    if by_len is not None:
+                        other_e = by_len.args[0]
+                        if _is_str(T, f, other_e) is False:
+                            continue  # length of a component list, not of a string
+                        verdict, why = _slice_by_len(repo, f, n, other_e, boundary_funcs)
+                        sites.append(Site(f, n, "slice-by-len", n.value, by_len, True, verdict, why))
+                        continue
+                    if s is not True or "PARTS" in tagged(n.value):
+                        continue
+                    for b, is_upper in bounds:
+                        if b is None or _len_calls(repo, f, b):
+                            continue  # (a bound relative to the own length: a cut counted from the end, see the other bound)
+                        try:
+                            ast.literal_eval(b)
+                            continue  # constant bound
+                        except Exception:  # noqa: BLE001
+                            pass
+                        verdict, why = _index_cut(repo, f, n, b, is_upper)
+                        sites.append(Site(f, n, "slice-by-index", n.value, b, True, verdict, why))
+                        break
+                # ---- characters of a name compared with constants
+                elif isinstance(n, (ast.For, ast.AsyncFor, ast.comprehension)):
+                    it = n.iter
+                    if isinstance(it, ast.Call) and _call_name(it) == "enumerate" and it.args:
+                        tgt = n.target.elts[1] if isinstance(n.target, ast.Tuple) and len(n.target.elts) == 2 else None
+                        it = it.args[0]
+                    else:
+                        tgt = n.target
+                    if not isinstance(tgt, ast.Name) or "NAME" not in tagged(it) or _is_str(T, f, it) is not True:
+                        continue
+                    if isinstance(n, (ast.For, ast.AsyncFor)):
+                        sites.extend(_char_prefix_sites(repo, f, n, tgt.id, it))
+                    for c in own_nodes(f.node):
+                        if isinstance(c, ast.Compare) and len(c.ops) == 1 and any(isinstance(x, ast.Name) and x.id == tgt.id for x in (c.left, c.comparators[0])):
+                            other = c.comparators[0] if isinstance(c.left, ast.Name) and c.left.id == tgt.id else c.left
+                            k = _const_str(other)
+                            if k is None and isinstance(other, (ast.Tuple, ast.List, ast.Set)) and all(_const_str(x) is not None for x in other.elts):
+                                k = "".join(sorted({_const_str(x) for x in other.elts}))
+                            if k is None:
+                                continue
+                            ok = k == "."
+                            sites.append(Site(f, c, "char-compare", it, other, True, "safe" if ok else "unsafe", "characters of the name are compared with the separator '.' only" if ok else f"`{norm(c, 60)}`: characters of a module name are compared with {k!r} - names are cut at other characters than '.'", "separator"))
+            except RecursionError:
+                raise
+            except Exception as exc:  # noqa: BLE001 - an unusual shape must not pass silently nor abort the whole lint
+                probe = [x for x in ast.walk(n) if isinstance(x, ast.expr)][:40] if isinstance(n, (ast.Call, ast.Compare, ast.Subscript)) else []
+                if any("NAME" in tagged(x) for x in probe):
+                    sites.append(Site(f, n, "internal", None, None, True, "unknown", f"`{norm(n, 60)}`: the lint failed on this construct ({type(exc).__name__}: {str(exc)[:80]})"))
     return sites
 
 
